@@ -206,11 +206,17 @@ def deficit(requested_outputs, prechosen_amounts, fee_per_byte, fee_per_name_cha
 # feasibility per strategy
 # ------------------------------------------------------------------------------------------------
 
-def subset_in_window(values, lo, hi):
+MAX_REACHABLE_SUMS = 400000
+
+
+def subset_in_window(values, lo, hi, max_sums=None):
     """Is there a non-empty subset of `values` (positive ints) with lo <= sum <= hi?  Brute force for
-    small lists, reachable-sum set capped at hi otherwise (exact as well)."""
+    small lists, the set of reachable sums <= hi otherwise (exact as well).  Returns None when that set
+    would exceed MAX_REACHABLE_SUMS entries (not decided - callers must not judge then)."""
     values = [v for v in values if v <= hi]
     if not values or lo > hi:
+        return False
+    if sum(values) < lo:
         return False
     if len(values) <= 16:
         for r in range(1, len(values) + 1):
@@ -220,14 +226,20 @@ def subset_in_window(values, lo, hi):
         return False
     sums = {0}
     for v in values:
-        sums |= {s + v for s in sums if s + v <= hi}
-    return any(lo <= s for s in sums if s > 0)
+        new = {s + v for s in sums if s + v <= hi}
+        if any(lo <= s for s in new):
+            return True
+        sums |= new
+        if len(sums) > (max_sums or MAX_REACHABLE_SUMS):
+            return None
+    return False
 
 
 def feasible(strategy, coins, need, fee_per_byte, change_bytes=CHANGE_PRICE_BYTES):
     """May `strategy` be expected to cover `need` dewies?  coins: iterable of dicts with amount, height,
     txo_type for every unspent, unreserved output of the funding accounts.  Only outputs worth more than
-    the fee to spend them count (the quantifier of the property says so).  Returns (bool, explanation)."""
+    the fee to spend them count (the quantifier of the property says so).  Returns (bool, explanation);
+    the bool is None when the subset-sum question of branch_and_bound is too large to decide exactly."""
     fee_in = P2PKH_INPUT_BYTES * fee_per_byte
     change = change_bytes * fee_per_byte
     strategy = strategy or 'standard'
@@ -242,7 +254,7 @@ def feasible(strategy, coins, need, fee_per_byte, change_bytes=CHANGE_PRICE_BYTE
         return confirmed >= need, f'confirmed positive effective amounts {confirmed} vs deficit {need}'
     if strategy == 'branch_and_bound':
         ok = subset_in_window([e for e, _ in eff], need, need + change)
-        return ok, f'subset with sum in [{need}, {need + change}] exists: {ok}'
+        return ok, f'subset with sum in [{need}, {need + change}] exists: {"not decided" if ok is None else ok}'
     if strategy == 'closest_match':
         best = max([e for e, _ in eff], default=0)
         return best >= need + change, f'largest effective amount {best} vs deficit+change fee {need + change}'
@@ -290,7 +302,10 @@ def selftest():
     assert feasible('closest_match', coins, 90900, 50, change_bytes=34)[0]
     assert feasible('branch_and_bound', coins, 42600, 50)[0] and feasible('branch_and_bound', coins, 40300, 50)[0]
     assert not feasible('branch_and_bound', coins, 40299, 50)[0]
-    assert subset_in_window(list(range(1, 30)), 400, 400) and not subset_in_window([5] * 20, 101, 104)
+    assert subset_in_window(list(range(1, 30)), 400, 400) and subset_in_window([5] * 20, 101, 104) is False
+    assert subset_in_window([10 ** 6 + 1000 * k for k in range(40)], 10 ** 7 + 7, 10 ** 7 + 9) is False
+    assert subset_in_window([10 ** 6 + 1009 * k * k + k for k in range(60)], 3 * 10 ** 7 + 1, 3 * 10 ** 7 + 1, max_sums=3000) is None
+    assert subset_in_window([10 ** 6 + 1000 * k for k in range(250)], 3 * 10 ** 6 + 3000, 3 * 10 ** 6 + 3000) is True
     assert deficit([(1000, p2pkh)], [], 50, 0) == 1000 + 44 * 50
     assert deficit([(1000, p2pkh)], [10000], 50, 0) == 1000 + 44 * 50 - (10000 - 7400)
     return True
